@@ -47,7 +47,7 @@ def _feb30_text(line):
 
 
 def _name_after_two_separators(line):
-    """Format::parse only skips the second separator character of the previous token when the character also ends the current
+    """(repaired by fix 41672ac; kept as the description of the shape, no longer listed) Format::parse only skipped the second separator character of the previous token when the character also ends the current
     token's text; before a weekday or month name (whose text ends at its own separator) it is kept, and the name is not recognised"""
     t = line.split(" ", 3)
     if t[0] != "rt_fmt" or len(t) != 4:
@@ -68,10 +68,6 @@ def _name_after_two_separators(line):
 
 
 KNOWN = [
-    {"status": "known", "property": "C19", "id": "name-token-after-two-separators", "pred": _name_after_two_separators,
-     "what": "Format::parse does not read back its own output when a weekday or month name token that is not the last one follows a token "
-             "with two separator characters (\"%Y-%m-%d %H:%M:%S.%f|/%b_%j\" prints \"...|/Jan_001\" and then fails with ValueError / "
-             "UnknownWeekday: the second separator is taken as part of the name)"},
     {"status": "known", "property": "C13", "id": "feb-30-31-leap-year", "pred": _feb30_text,
      "what": "text naming 30 or 31 February of a leap year is parsed into 1 or 2 March instead of being rejected (the C08 finding "
              "feb-30-31-leap-year seen through Epoch::from_str / from_format_str; tests/epoch.rs:1092 pins the constructor)"},
